@@ -278,7 +278,7 @@ Theorem event_to_sample_sound k c m d perm s :
 Proof.
   intros Hk P H. unfold event_to_sample in H.
   destruct (c * m <? k); [discriminate|].
-  set (orbs := filter (fun o => list_max o <=? c) (orbits k)) in *.
+  set (orbs := filter (fun o => (list_max o <=? c) && (length o <=? m)) (orbits k)) in *.
   set (cands := filter (fun o => negb (N.eqb (orbit_cardinality o m) 0)) orbs) in *.
   destruct cands as [|o0 rest] eqn:Ec; [discriminate|].
   assert (Hin : In (nth (d mod length (o0 :: rest)) (o0 :: rest) []) cands).
@@ -286,7 +286,7 @@ Proof.
   set (o := nth (d mod length (o0 :: rest)) (o0 :: rest) []) in *.
   unfold cands in Hin. apply filter_In in Hin. destruct Hin as [Hin _].
   unfold orbs in Hin. apply filter_In in Hin. destruct Hin as [Ho Hmax].
-  apply Nat.leb_le in Hmax.
+  apply andb_true_iff in Hmax. destruct Hmax as [Hmax _]. apply Nat.leb_le in Hmax.
   destruct (orbits_sound k o Hk Ho) as [D [F S]].
   destruct (orbit_to_sample_roundtrip o m perm s D F P H) as [R L].
   assert (Hsum : list_sum s = k).
@@ -361,10 +361,15 @@ Theorem orbit_cardinality_multinomial o m : length o <= m ->
   (orbit_cardinality o m * prod_fact (counts (pad o m)) = factN m)%N.
 Proof.
   intros H. unfold orbit_cardinality, counts.
+  replace (m <? length o) with false by (symmetry; apply Nat.ltb_ge; auto).
   destruct (mults_div (length (pad o m)) (pad o m) (le_n _)) as [q Hq].
   rewrite (pad_length o m H) in Hq at 2.
   rewrite <- Hq. rewrite N.div_mul; auto. apply prod_fact_pos.
 Qed.
+
+(* with more parts than modes the orbit is empty *)
+Theorem orbit_cardinality_short o m : m < length o -> orbit_cardinality o m = 0%N.
+Proof. intros H. unfold orbit_cardinality. apply Nat.ltb_lt in H. rewrite H. reflexivity. Qed.
 
 (* the multiplicities are those of the padded sample and account for every mode *)
 Lemma mults_sum fuel : forall l, length l <= fuel -> list_sum (mults fuel l) = length l.
